@@ -413,6 +413,12 @@ func (r *run) doStep(s Step) {
 	if r.w == nil && s.Op != "open" {
 		return
 	}
+	if s.Op == "reopen" {
+		// a clean restart = Close followed by Open: two API calls (separate markers in the I/O trace)
+		r.doStep(Step{Op: "close"})
+		r.doStep(Step{Op: "open"})
+		return
+	}
 	s = r.resolve(s)
 	si := stepInfo{markBefore: r.mark(), inv: r.rec.Len()}
 	opDesc, _ := json.Marshal(s)
